@@ -146,6 +146,9 @@ fn gen_line(r: &mut crate::rng::Rng, uniq: &mut i64, me: &str) -> String {
         ".kg create default".into(),
         ".kg create k1".into(),
         ".kg use nosuchkg".into(),
+        // "create if missing, then use": the create fails on an existing graph, the switch succeeds
+        ".kg create k1\n.kg use k1".into(),
+        ".kg create k2\n.kg use k2".into(),
         format!(".user create\nevil{u} pw-123456789 admin"),
         format!(".user\ncreate evil{u} pw-123456789 admin"),
         ".rule drop\np".into(),
@@ -268,6 +271,40 @@ pub fn run27(ctx: &mut Ctx) {
                 hit = true;
             }
         }
+        // effective per-KG roles: nobody but an owner of a KG (or the creator of a re-created one) may change
+        // them. Whatever happened, the baseline is put back afterwards so that the static role table the
+        // oracle above relies on stays true for the following cases (the world lives for the whole shard).
+        let kgs_now = w.h.h.get_storage().list_knowledge_graphs();
+        for kg in ["k1", "k2"] {
+            if !kgs_now.iter().any(|x| x == kg) {
+                continue;
+            }
+            for (u, ua, ub) in &w.users {
+                let base = role_on(kg, ua, ub);
+                let eff = w.h.h.get_kg_role_for_user(kg, &u.username, &u.role).map(|r| r.to_string().to_lowercase()).unwrap_or_else(|| "none".to_string());
+                if eff == base {
+                    continue;
+                }
+                let actor_role = role_on(kg, a, b);
+                // k1/k2 exist when the program starts and only an owner can drop them, so nobody else can
+                // legitimately end up with different roles on them (not even through `.kg create`)
+                if !hit && actor_role != "owner" {
+                    ctx.violation(
+                        k,
+                        &format!("C27:acl-changed-by-non-owner:{}", shape_of(&program)),
+                        format!("{} (role on {kg}: {actor_role}) changed the role of {} on {kg} from {base} to {eff}", id.username, u.username),
+                        json!({"program": program.lines().collect::<Vec<_>>(), "identity": id.username, "global_role": id.role.to_string(), "request_kg": if no_kg { "(none)" } else { target }, "via_session": use_session, "kg": kg, "kg_role": actor_role}),
+                    );
+                    hit = true;
+                }
+                ctx.count("acl_restored_to_baseline");
+                if base == "none" {
+                    let _ = w.h.h.handle_kg_acl_revoke(kg, &u.username);
+                } else {
+                    let _ = w.h.h.handle_kg_acl_grant(kg, &u.username, base);
+                }
+            }
+        }
         if !hit && nontrivial && k % 40 == 0 {
             ctx.sample(json!({"program": program.lines().collect::<Vec<_>>(), "identity": id.username, "role_k1": a, "role_k2": b, "request_kg": target, "result": res.is_ok()}));
         }
@@ -307,7 +344,7 @@ pub fn run29(ctx: &mut Ctx) {
             "?kg_acls(A, B, C)".into(),
             "+users(\"evil\", \"x\", \"admin\")".into(),
             format!("+kg_acls(\"k1\", \"{}\", \"owner\")", id.username),
-            "-canary(\"CANARY-7f3a91\")".into(),
+            "-canary(X) <- canary(X)".into(), // never the literal: a reply must not be able to echo it from the request
             "+leak(X) <- canary(X)".into(),
             "leak(X) <- canary(X)\n?leak(X)".into(),
             ".rel".into(),
